@@ -1,6 +1,7 @@
 import Rare.Base.Proto
 import Rare.Model.C04
 import Rare.Model.C04Sync
+import Rare.Model.C06Inflate
 namespace Rare.Drv.C04
 open Rare Rare.C04 Rare.Proto
 
@@ -165,6 +166,18 @@ def handle : List String → String
         let r := Buf.scanAll fuel fuel (Buf.init n ⟨data, script⟩)
         render r.1 r.2.1 r.2.2.errs r.2.2.arrays
     | _, _, _ => "bad-args"
+  | ["gz", _kind, _sz, file, _caps] =>
+    -- the scanner over the reader `openFileToReader` returns for this file content with `-z`: the answer is computed
+    -- from C06's decoder model (`scanner_over_opened_file`: the lines of what the gzip reader delivers, whatever the
+    -- chunking; one OnError call iff the stream ends with a failure; `gunzip = none`: read as a plain file)
+    match Hex.dec file with
+    | some content =>
+      let (mode, d, fails) := match Rare.C06.Gz.gunzip content with
+        | some (d, fails) => ("gz", d, fails)
+        | none => ("plain", content, false)
+      let lines := hexList (splitLines d)
+      s!"ok mode={mode} errs={if fails then 1 else 0} t={lines} r={lines}"
+    | none => "bad-args"
   | ["split", d] =>
     match Hex.dec d with
     | some data => s!"ok {hexList (splitLines data)}"
